@@ -9,6 +9,7 @@ import (
 	_ "embed"
 	"encoding/json"
 	"fmt"
+	"hash/fnv"
 	"os"
 	"os/exec"
 	"path/filepath"
@@ -513,6 +514,17 @@ func (it *Item) Run(ops []any, timeout time.Duration, env ...string) ([]map[stri
 	cmd.Stdout = &stdout
 	cmd.Stderr = &stderr
 	cmd.Env = append(os.Environ(), "GOMEMLIMIT=2GiB")
+	// no property depends on the zone the process runs in, so the emitted code is never run in UTC: half the
+	// items run eleven hours west of it, half fourteen hours east (a codec that formats a date in local time
+	// moves midnight-UTC dates to the day before in the first, late-evening instants to the day after in the second)
+	tz := "Pacific/Pago_Pago"
+	if h := fnv.New32a(); true {
+		h.Write([]byte(it.ID))
+		if h.Sum32()%2 == 1 {
+			tz = "Pacific/Kiritimati"
+		}
+	}
+	cmd.Env = append(cmd.Env, "TZ="+tz)
 	cmd.Env = append(cmd.Env, env...)
 	if err := cmd.Start(); err != nil {
 		return nil, "", err
